@@ -40,6 +40,7 @@ def cases(tier, seed):
         if prof == "burst":
             par = R.choice([16, 32])
         s = dict(stage=st, profile=prof, par=par, seed=R.randrange(1 << 30))
+        s["long_item"] = (i % 4 == 1)  # one item whose processing outlasts every (dilated) time-out after the queue has drained
         if st == "leaves":
             s["pyr"] = gens.gen_pyramid(R, maxdepth=4 if tier == "quick" else 5, mindepth=0 if i % 20 == 0 else 1, sub_p=0.35)
         elif st in ("u8", "f16", "doone"):
@@ -73,6 +74,17 @@ def _generic_history_checks(recs, v):
             ret = True
             if live:
                 v.append(("worker-alive-at-return", "%d workers not exited when the stage returned" % len(live)))
+            opened = {}
+            for q in recs:
+                if q is r:
+                    break
+                if q["k"] == "cb_start":
+                    opened[tuple(q["pos"])] = opened.get(tuple(q["pos"]), 0) + 1
+                elif q["k"] == "cb_end":
+                    opened[tuple(q["pos"])] = opened.get(tuple(q["pos"]), 0) - 1
+            unfinished = [p for p, n in opened.items() if n > 0]
+            if unfinished:
+                v.append(("item-unfinished-at-return", "items %s were still being processed when the stage returned" % unfinished[:4]))
         elif ret and k in ("cb_start", "cb_end", "pio_read", "pio_write", "pio_update_call", "pio_update_ret", "get_ret"):
             v.append(("processing-after-return", "%s %s logged after the stage returned" % (k, r.get("pos") or r.get("item"))))
     # hand-off: each put item received at most once... and exactly once when the stage returned
@@ -121,6 +133,10 @@ def case_leaves(spec, workdir):
 
     cs = gens.coordsys_of(ps)
     res = {}
+    long_pos = None
+    if spec.get("long_item") and ref:
+        # the last leaf in enumeration order is the last one handed out: it is still being processed when the queue is empty
+        long_pos = max(ref, key=lambda p: (p[2], p[1])) if random.Random(spec["seed"]).random() < 0.5 else sorted(ref)[-1]
     for tag, par, prof in (("par", spec["par"], spec["profile"]), ("serial", 1, "natural")):
         instr_mp.install(prof, spec["seed"])
         log = os.path.join(workdir, "log-" + tag)
@@ -137,6 +153,10 @@ def case_leaves(spec, workdir):
                     geo = bool(np.allclose(np.array(tile.corners, dtype=float), np.array(t2.corners, dtype=float), atol=1e-12)) and bool(tile.increasing) == bool(t2.increasing)
             evlog.ev("cb_start", pos=p, geo=geo, hastile=tile is not None)
             instr_mp.cb_delay(p)
+            if long_pos is not None and p == long_pos and par > 1:
+                import time as _time
+
+                _time.sleep(0.6)
             evlog.ev("cb_end", pos=p)
 
         outcome, info = _run(lambda: pyr.visit_leaves(cb, parallel=par), log, par)
